@@ -300,6 +300,9 @@ func readWith(c *Ctx, src *gen.Source, conc, mode, blockMax int, g *prng.Rng) re
 		for {
 			n, err := r.Read(buf)
 			res.out = append(res.out, buf[:n]...)
+			for j := 0; j < n; j++ {
+				buf[j] = 0xE3 // the caller owns buf between calls
+			}
 			if err == io.EOF {
 				return
 			}
